@@ -141,6 +141,10 @@ pub enum T {
     /// (`rust:<name>`). Equal only to itself, and the two sides never share a
     /// name, so it never matches.
     Alien(&'static str),
+    /// The Roto type `Thing` as bound by the k-th runtime of the history
+    /// family = the k-th registered Rust type (`Val<Small|Big|Mid>`). The same
+    /// Roto spelling for every k.
+    Reg(u8),
 }
 
 pub fn l(x: Leaf) -> T {
@@ -165,7 +169,7 @@ pub fn unit() -> T {
 impl T {
     pub fn depth(&self) -> usize {
         match self {
-            T::L(_) | T::Alien(_) => 0,
+            T::L(_) | T::Alien(_) | T::Reg(_) => 0,
             T::Opt(x) | T::List(x) => 1 + x.depth(),
             T::Res(a, b) | T::Ver(a, b) => 1 + a.depth().max(b.depth()),
         }
@@ -179,6 +183,7 @@ impl T {
             T::Res(a, b) => format!("Result[{}, {}]", a.roto(), b.roto()),
             T::Ver(a, b) => format!("Verdict[{}, {}]", a.roto(), b.roto()),
             T::Alien(n) => n.split_once(':').map_or(*n, |x| x.1).to_string(),
+            T::Reg(_) => "Thing".into(),
         }
     }
     /// Rust spelling (for reports)
@@ -190,6 +195,7 @@ impl T {
             T::Res(a, b) => format!("Result<{}, {}>", a.rust(), b.rust()),
             T::Ver(a, b) => format!("roto::Verdict<{}, {}>", a.rust(), b.rust()),
             T::Alien(n) => n.to_string(),
+            T::Reg(k) => format!("roto::Val<c04p::probe::{}>", ["Small", "Big", "Mid"][*k as usize]),
         }
     }
     pub fn mangle(&self) -> String {
@@ -200,6 +206,7 @@ impl T {
             T::Res(a, b) => format!("R{}_{}", a.mangle(), b.mangle()),
             T::Ver(a, b) => format!("V{}_{}", a.mangle(), b.mangle()),
             T::Alien(n) => n.replace([':', '<', '>', ' ', '{', '}', ',', '[', ']', '.'], "_"),
+            T::Reg(k) => format!("Thing{k}"),
         }
     }
     /// A Roto expression producing a value of this type when the expected
@@ -212,6 +219,7 @@ impl T {
             T::Res(a, _) => format!("Result.Ok({})", a.value()),
             T::Ver(a, _) => format!("Verdict.Accept({})", a.value()),
             T::Alien(_) => unreachable!(),
+            T::Reg(_) => "mk_thing()".into(),
         }
     }
     pub fn typed_value(&self) -> String {
@@ -241,7 +249,7 @@ impl T {
             T::L(x) => *x == leaf,
             T::Opt(x) | T::List(x) => x.has_leaf(leaf),
             T::Res(a, b) | T::Ver(a, b) => a.has_leaf(leaf) || b.has_leaf(leaf),
-            T::Alien(_) => false,
+            T::Alien(_) | T::Reg(_) => false,
         }
     }
 }
